@@ -67,6 +67,7 @@ type Client struct {
 	closed   chan struct{}
 	rerr     error
 	nrecv    int64
+	closing  int32
 	ngarbage int64
 	onFrame  atomic.Value // func(*Frame): optional online monitor
 }
@@ -194,6 +195,9 @@ func (c *Client) Garbage() int64 { return atomic.LoadInt64(&c.ngarbage) }
 
 func (c *Client) Closed() <-chan struct{} { return c.closed }
 func (c *Client) IsClosed() bool {
+	if atomic.LoadInt32(&c.closing) != 0 { // closed from this side: true at once, not only when the reader has noticed
+		return true
+	}
 	select {
 	case <-c.closed:
 		return true
@@ -201,7 +205,7 @@ func (c *Client) IsClosed() bool {
 		return false
 	}
 }
-func (c *Client) Close()            { _ = c.nc.Close() }
+func (c *Client) Close()            { atomic.StoreInt32(&c.closing, 1); _ = c.nc.Close() }
 func (c *Client) LocalAddr() string { return c.nc.LocalAddr().String() }
 func (c *Client) Received() int64   { return atomic.LoadInt64(&c.nrecv) }
 
